@@ -385,12 +385,10 @@ def _executor_table(p, led, tier, ex, exe, wd, ms, pt, tv, DT, IL, dts, ils, ilv
         "chain declared in reverse": ({"C": ({"i": T}, {}), "B": ({"i": T}, {"o": T}), "A": ({}, {"o": T})}, [("A", "o", "B", "i"), ("B", "o", "C", "i")], {"A": "raw", "B": "raw", "C": "none"}, "ok"),
         "diamond": ({"D": ({"x": T, "y": T}, {}), "A": ({}, {"o": T}), "B": ({"i": T}, {"o": T}), "C": ({"i": T}, {"o": T})},
                     [("A", "o", "B", "i"), ("A", "o", "C", "i"), ("B", "o", "D", "x"), ("C", "o", "D", "y")], {"A": "raw", "B": "raw", "C": "raw", "D": "none"}, "ok"),
-        "two wires from one producer plus one from another (A, B, C)": ({"A": ({}, {"o1": T, "o2": T}), "B": ({}, {"o": T}), "C": ({"x": T, "y": T, "z": T}, {})},
-                                                                         [("A", "o1", "C", "x"), ("A", "o2", "C", "y"), ("B", "o", "C", "z")], {"A": "raw", "B": "raw", "C": "none"}, "ok"),
-        "two wires from one producer plus one from another (C, B, A)": ({"C": ({"x": T, "y": T, "z": T}, {}), "B": ({}, {"o": T}), "A": ({}, {"o1": T, "o2": T})},
-                                                                         [("A", "o1", "C", "x"), ("A", "o2", "C", "y"), ("B", "o", "C", "z")], {"A": "raw", "B": "raw", "C": "none"}, "ok"),
-        "two wires from one producer plus one from another (B, C, A)": ({"B": ({}, {"o": T}), "C": ({"x": T, "y": T, "z": T}, {}), "A": ({}, {"o1": T, "o2": T})},
-                                                                         [("A", "o1", "C", "x"), ("A", "o2", "C", "y"), ("B", "o", "C", "z")], {"A": "raw", "B": "raw", "C": "none"}, "ok"),
+        **{f"two wires from one producer plus one from another ({', '.join(order)})":
+             ({m_: {"A": ({}, {"o1": T, "o2": T}), "B": ({}, {"o": T}), "C": ({"x": T, "y": T, "z": T}, {})}[m_] for m_ in order},
+              [("A", "o1", "C", "x"), ("A", "o2", "C", "y"), ("B", "o", "C", "z")], {"A": "raw", "B": "raw", "C": "none"}, "ok")
+           for order in __import__("itertools").permutations("ABC")},
         "two-cycle": ({"A": ({"i": T}, {"o": T}), "B": ({"i": T}, {"o": T})}, [("A", "o", "B", "i"), ("B", "o", "A", "i")], {"A": "raw", "B": "raw"}, "raise"),
         "cycle on an island beside a runnable chain": ({"S": ({}, {"o": T}), "K": ({"i": T}, {}), "X": ({"i": T}, {"o": T}), "Y": ({"i": T}, {"o": T})},
                                                        [("S", "o", "K", "i"), ("X", "o", "Y", "i"), ("Y", "o", "X", "i")], {"S": "raw", "K": "none", "X": "raw", "Y": "raw"}, "raise"),
@@ -456,7 +454,7 @@ def _executor_table(p, led, tier, ex, exe, wd, ms, pt, tv, DT, IL, dts, ils, ilv
             led.fail(rid, title, where(exe, exe.node), f"{len(mine)} case(s), e.g. {mine[0]}", path=mine[:8],
                      witness="modules {src→sink} plus an unreachable 2-cycle {x⇄y}: execute() returns a report, x and y never run" if rid == "C16-R5" else None)
         else:
-            led.ok(rid, title, where(exe, exe.node), f"{ncase} interpreted cases (wire typing × labelled/raw outputs × enforcement; external inputs; 11 scheduling shapes; 4 rewire-then-run-again histories)")
+            led.ok(rid, title, where(exe, exe.node), f"{ncase} interpreted cases (wire typing × labelled/raw outputs × enforcement; external inputs; 14 scheduling shapes; 4 rewire-then-run-again histories)")
     # keep one visible obligation per clause for the per-rule floors
     for rid, extra in (("C16-R3", ["handler outputs are checked against the declared port", "external inputs are coerced", "wire deliveries are typed", "wire deliveries respect integrity"]),
                        ("C16-R4", ["not run twice", "all declared inputs present"]), ("C16-R5", ["no-progress pass raises", "pre-flight refusals"])):
